@@ -234,6 +234,8 @@ Presence == P!Presence(View)
 NoDuplicate == P!NoDuplicate(View)
 SemNonNegative == P!SemNonNegative(View)
 NoPanic == panic = "none"
+(* every step of the design model is a legal step in the sense of MSIProps (action property) *)
+LegalSteps == [][P!LegalStep(View, View')]_vars
 Capacity == \A c \in Cores : Len(l1[c]) <= Cap + 1
 
 (* C07 at the design level: with no flush, every request that was started completes *)
